@@ -102,6 +102,8 @@ def operand_left(m, i):
     end = j + 1
     while j >= 0:
         c = m[j]
+        if c == '.' and ((j > 0 and m[j - 1] == '.') or (j + 1 < len(m) and m[j + 1] == '.')):
+            break
         if is_ident(c) or c in '.?"\'':
             j -= 1
         elif c == ':' and j > 0 and m[j - 1] == ':':
